@@ -452,10 +452,57 @@ def rule_d(ctx: Context, R: Reporter):
                 if any(run in ctx.cg.reachable([t]) and t is not run and fi.cls is not base and not ctx.prog.is_subclass(fi.cls, base) if fi.cls else run in ctx.cg.reachable([t]) for t in reach):
                     if len(n.stmt.targets[0].elts) == len(rets[0].value.elts):
                         consumers.append((fi, n))
-    R.floor("C07.d", "consumers unpacking the kernel result", len(consumers), 1)
+    # consumers that wrap the result in a named tuple and read it by field: NT(*result) / NT._make(result)
+    nt_consumers = []
+    for fi in ctx.prog.functions.values():
+        fl = flow_of(fi.node)
+        for n in fl.cfg.stmt_nodes():
+            if not (n.kind == "stmt" and isinstance(n.stmt, ast.Assign) and isinstance(n.stmt.targets[0], ast.Name) and isinstance(n.stmt.value, ast.Call)):
+                continue
+            c = n.stmt.value
+            inner = None
+            ntname = None
+            if len(c.args) == 1 and isinstance(c.args[0], ast.Starred) and isinstance(c.func, ast.Name):
+                inner, ntname = c.args[0].value, c.func.id
+            elif isinstance(c.func, ast.Attribute) and c.func.attr == "_make" and isinstance(c.func.value, ast.Name) and len(c.args) == 1:
+                inner, ntname = c.args[0], c.func.value.id
+            if inner is None:
+                continue
+            fields = _namedtuple_fields(ctx, fi, ntname)
+            if fields is None:
+                continue
+            callv = inner
+            if isinstance(callv, ast.Name):
+                ds0 = fl.reaching(n, callv.id)
+                if len(ds0) == 1 and ds0[0].kind == "assign" and isinstance(ds0[0].value, ast.Call) and not ds0[0].path:
+                    callv = ds0[0].value
+            if not isinstance(callv, ast.Call):
+                continue
+            reach = [t for t in ctx.res.call_targets(fi, callv) if isinstance(t, FuncInfo)]
+            if any(run in ctx.cg.reachable([t]) and t is not run for t in reach) and len(fields) == len(rets[0].value.elts):
+                nt_consumers.append((fi, n, n.stmt.targets[0].id, fields))
+    R.floor("C07.d", "consumers unpacking the kernel result", len(consumers) + len(nt_consumers), 1)
     for r in rets:
         at = flow.node_containing(r)
         prod = [tg.tag(e, at) for e in r.value.elts]
+        for (fi, n, var, fields) in nt_consumers:
+            fl = flow_of(fi.node)
+            writes = [a for a in ctx.state.in_func(fi) if a.mode == "write"]
+            for i, (p, fld) in enumerate(zip(prod, fields)):
+                if p not in PARTICLE_FIELDS:
+                    continue
+                n_pos += 1
+                keys = set()
+                for a in writes:
+                    if a.value is None:
+                        continue
+                    wn = fl.node_containing(a.call)
+                    for x in ast.walk(a.value):
+                        if isinstance(x, ast.Attribute) and isinstance(x.value, ast.Name) and x.value.id == var and x.attr == fld and wn is not None and any(d.node is n for d in fl.reaching(wn, var)):
+                            keys.add(a.key)
+                R.check("C07.d", f"kernel result position {i} ('{p}') is stored under key '{p}'", keys == {p}, fi, n.stmt,
+                        msg=f"{fi.short}: position {i} of the kernel result is field '{p}' ({unparse(r.value.elts[i])}); it is read back as `{var}.{fld}` and stored under {sorted(keys) or 'no key'}",
+                        key=f"pos{i}:{p}")
         for (fi, n) in consumers:
             tgt = n.stmt.targets[0].elts
             fl = flow_of(fi.node)
@@ -479,6 +526,23 @@ def rule_d(ctx: Context, R: Reporter):
     R.analysed["C07.d:positions"] = n_pos
     if n_pos < 3:
         raise AnalysisError("C07.d: fewer than 3 particle positions matched between kernel result and consumer")
+
+
+def _namedtuple_fields(ctx: Context, fi: FuncInfo, name: str) -> Optional[List[str]]:
+    """Field names, in order, of a module-level named tuple: `N = namedtuple("N", [...] | "a b c")`
+    or `class N(NamedTuple): a: T; b: T`."""
+    mod = fi.module
+    v = mod.constants.get(name)
+    if isinstance(v, ast.Call) and dotted(v.func).split(".")[-1] == "namedtuple" and len(v.args) >= 2:
+        f = v.args[1]
+        if isinstance(f, (ast.List, ast.Tuple)) and all(isinstance(e, ast.Constant) and isinstance(e.value, str) for e in f.elts):
+            return [e.value for e in f.elts]
+        if isinstance(f, ast.Constant) and isinstance(f.value, str):
+            return f.value.replace(",", " ").split()
+    ci = mod.classes.get(name)
+    if ci is not None and any("NamedTuple" in b for b in ci.base_names):
+        return [st.target.id for st in ci.node.body if isinstance(st, ast.AnnAssign) and isinstance(st.target, ast.Name)]
+    return None
 
 
 # ------------------------------------------------------------------ C07.e
